@@ -21,6 +21,22 @@ theorem session_eq_spec (steps : List Step) (h : allEnabled steps = true) :
   rw [events_append] at this
   simpa [events] using this
 
+/-- the same with level changes at arbitrary positions: whatever the sequence of Writes, Syncs and level changes,
+    the messages are those of the event stream under `specT` — bytes written while the level is disabled are not part
+    of the stream, a line ends at each newline and (when non-empty) at each Sync/Close, and a line is logged only if the
+    level is enabled at that moment -/
+theorem session_eq_spec_toggles (steps : List Step) :
+    (session steps).1 = (specT true [] (eventsT steps ++ [EvT.mark])).1 := by
+  have h := (runSteps_eq_specT {} (steps ++ [Step.sync])).1
+  rw [eventsT_append] at h
+  simpa [session, eventsT] using h
+
+/-- chunking invariance in general: two call sequences with the same bytes, split marks and level changes log the
+    same messages -/
+theorem chunking_invariant_toggles (s₁ s₂ : List Step) (he : eventsT s₁ = eventsT s₂) :
+    (session s₁).1 = (session s₂).1 := by
+  rw [session_eq_spec_toggles, session_eq_spec_toggles, he]
+
 /-- chunking invariance: two call sequences carrying the same bytes and split marks log the same messages -/
 theorem chunking_invariant (s₁ s₂ : List Step) (h₁ : allEnabled s₁ = true) (h₂ : allEnabled s₂ = true)
     (he : events s₁ = events s₂) : (session s₁).1 = (session s₂).1 := by
